@@ -4,3 +4,28 @@ NOTES = ("Technique: explicit TLA+ specifications + TLC, bound to the code by sp
          "Known genuine defects are listed in known_findings.json. See DESIGN.md.")
 comp("C17", "specs/lib/OneSlot.tla", "Forwarder and Pipe as one-slot buffers")
 comp("C16", "specs/lib/Stack.tla", "Stack as a bounded LIFO")
+CORE_NOTE = ("Designs come from a bounded grammar (<=4 transactions, <=4 methods, nesting <=2); the conflict relation and "
+             "priority orders are the specification's and are inferred, never read from the manager; Amaranth's Python "
+             "simulator is trusted.")
+def core(pid, what):
+    CHECKS[pid] = (MC,
+        "TLA+ spec TxnCore (design-as-data) : TLC checks the scheduling model exhaustively over generated designs x all "
+        "valuations x all admissible orders (TxnCoreMC); real circuits built from the same designs are simulated and every "
+        "cycle is judged by TLC (TxnCoreTrace, hidden priority order / arbiter state inferred)",
+        what + ": model checked by TLC over a bounded universe of designs; the implementation is bound to the model by "
+        "validating every simulated cycle of hundreds of generated designs (all input valuations) against the same spec.",
+        CORE_NOTE, "4.1, 5")
+core("C01", "at most one active call per exclusive method and no joint run of conflicting transactions")
+core("C02", "add_conflict-related bodies never run together")
+core("C03", "a transaction runs only when fully enabled")
+core("C04", "methods run exactly when an active call site exists; nested bodies only with their parent")
+core("C05", "argument and result routing incl. nonexclusive combiner and provide() aliases")
+core("C06", "comb/sync/av_comb/top_comb effect semantics through witness signals")
+core("C07", "eager scheduler wastes no cycle")
+core("C08", "conflict priorities respected")
+core("C09", "round-robin scheduler: one grant per component, progress, bounded wait")
+core("C11", "ill-formed designs rejected, well-formed ones accepted (VerdictD)")
+CHECKS["C12"] = (MC, "TLA+ spec Condition: model checked exhaustively (ConditionMC: every observation the model allows, all valuations); real condition() circuits simulated on all valuations and judged per cycle by ConditionTrace",
+    "the five sentences of C12 are TLC-checked on the model and on every simulated cycle of generated condition() designs", CORE_NOTE, "5 (C12)")
+CHECKS["C13"] = (MC, "TLA+ spec Simultaneous: model checked (SimultaneousMC); real Connect / simultaneous() circuits simulated on all valuations and judged per cycle by SimultaneousTrace",
+    "SameCycles and DataBothWays TLC-checked on the model and on every simulated cycle of generated designs", CORE_NOTE, "5 (C13)")
